@@ -687,6 +687,32 @@ fn family_paths() -> Vec<(Graph, Vec<Variant>)> {
             out.push((g, vs));
         }
     }
+    // modules with the same name in different directories, each imported by a neighbouring file
+    // (and from the root) on one runtime: a name is resolved relative to the importing file
+    for form_inner in [Form::Plain, Form::From, Form::StrAs] {
+        let mut files = BTreeMap::new();
+        files.insert("helper.koto".to_string(), ModFile { label: "helperROOT".into(), imports: vec![], fail: Fail::None });
+        files.insert("p/main.koto".to_string(), ModFile { label: "p".into(), imports: vec![Imp { name: "helper".into(), form: form_inner, wrapped: true }], fail: Fail::None });
+        files.insert("p/helper.koto".to_string(), ModFile { label: "helperP".into(), imports: vec![], fail: Fail::None });
+        files.insert("q/main.koto".to_string(), ModFile { label: "q".into(), imports: vec![Imp { name: "helper".into(), form: form_inner, wrapped: true }], fail: Fail::None });
+        files.insert("q/helper/main.koto".to_string(), ModFile { label: "helperQ".into(), imports: vec![], fail: Fail::None });
+        let g = Graph { files, tags: vec!["P".to_string(), "same-name-different-directories".into()] };
+        let mut vs = vec![];
+        let names = ["p", "q", "helper", "p/helper", "q/helper"];
+        for n1 in names {
+            for n2 in names {
+                for n3 in names {
+                    for form in [Form::StrAs, Form::From] {
+                        let s: Vec<Imp> = [n1, n2, n3].iter().map(|n| Imp { name: n.to_string(), form, wrapped: true }).collect();
+                        // in one script, and spread over three scripts on the same runtime
+                        vs.push(Variant { scripts: vec![s.clone()], readback: false, import_tests: false, export_top: false });
+                        vs.push(Variant { scripts: s.iter().map(|i| vec![i.clone()]).collect(), readback: false, import_tests: false, export_top: false });
+                    }
+                }
+            }
+        }
+        out.push((g, vs));
+    }
     out
 }
 
